@@ -22,7 +22,7 @@ pub mod stdlib {
     pub use std::vec::Vec;
 }
 pub mod num_bigint { pub use crate::shim::{BigInt, BigUint, Sign, ParseBigIntError, ToBigInt}; }
-pub mod num_traits { pub use crate::shim::{Zero, One, Signed, ToPrimitive, CheckedSub}; }
+pub mod num_traits { pub use crate::shim::{Zero, One, Signed, ToPrimitive, FromPrimitive, CheckedSub}; }
 pub mod num_integer { pub use crate::shim::NumInteger as Integer; }
 
 use self::stdlib::cmp::{self, Ordering};
@@ -32,6 +32,8 @@ use self::stdlib::ops::{
     Add, AddAssign, Div, DivAssign, Mul, MulAssign, Neg, Sub, SubAssign, Rem, RemAssign,
 };
 use self::stdlib::Vec;
+use self::stdlib::num::{ParseFloatError, ParseIntError};
+use self::stdlib::string::String;
 use self::num_bigint::{BigInt, BigUint, ParseBigIntError, Sign};
 use self::num_integer::Integer as IntegerTrait;
 pub use self::num_traits::{One, Signed, ToPrimitive, Zero};
